@@ -5,6 +5,10 @@
 pub use libc::*;
 
 pub unsafe fn io_uring_setup(entries: c_uint, p: *mut io_uring_params) -> c_int {
+    #[cfg(a10_verif)]
+    if let Some(kernel) = crate::verif::kernel() {
+        return (kernel.setup)(entries, p.cast());
+    }
     syscall(SYS_io_uring_setup, entries as c_long, p as c_long) as _
 }
 
@@ -14,6 +18,10 @@ pub unsafe fn io_uring_register(
     arg: *const c_void,
     nr_args: c_uint,
 ) -> c_int {
+    #[cfg(a10_verif)]
+    if let Some(kernel) = crate::verif::kernel() {
+        return (kernel.register)(fd, opcode, arg, nr_args);
+    }
     syscall(
         SYS_io_uring_register,
         fd as c_long,
@@ -31,6 +39,10 @@ pub unsafe fn io_uring_enter2(
     arg: *const libc::c_void,
     size: usize,
 ) -> c_int {
+    #[cfg(a10_verif)]
+    if let Some(kernel) = crate::verif::kernel() {
+        return (kernel.enter)(fd, to_submit, min_complete, flags, arg, size);
+    }
     syscall(
         SYS_io_uring_enter,
         fd as c_long,
